@@ -805,7 +805,7 @@ class XMLConverter(PDFConverter[AnyIO]):
                 )
                 self.write(s)
             elif isinstance(item, LTFigure):
-                s = f'<figure name="{item.name}" bbox="{bbox2str(item.bbox)}">\n'
+                s = f'<figure name="{enc(item.name)}" bbox="{bbox2str(item.bbox)}">\n'
                 self.write(s)
                 for child in item:
                     render(child)
@@ -835,8 +835,8 @@ class XMLConverter(PDFConverter[AnyIO]):
                     % (
                         enc(item.fontname),
                         bbox2str(item.bbox),
-                        item.ncs.name,
-                        item.graphicstate.ncolor,
+                        enc(item.ncs.name),
+                        enc(str(item.graphicstate.ncolor)),
                         item.size,
                     )
                 )
